@@ -98,6 +98,18 @@ pub fn enum_mgu(seed: u64) -> Vec<String> {
     out
 }
 
+/// the cases of enum_mgu in which `$_` occurs in one of the two terms (C09: success with `$_` still equalises the rest)
+pub fn enum_mgu_anon(seed: u64) -> Vec<String> {
+    let mut out = vec![];
+    for s in 0..3u64 {
+        for c in enum_mgu(seed.wrapping_add(s * 7919)) {
+            let a = field(&c, "a"); let b = field(&c, "b");
+            if (a.contains('_') || b.contains('_')) && !out.contains(&c) { out.push(c); }
+        }
+    }
+    out
+}
+
 pub fn check_mgu(case: &str) -> Result<(), String> {
     let ss = Rc::new(de_ss(field(case, "ss")));
     let a = de(field(case, "a"));
